@@ -9,9 +9,9 @@ import CifModel.Lemmas.ParserStructure
   The analysis runs under the abort-on-error policy `dieAll` (the answer to a report is its code): there a run that has
   reported something has ended, so a run that is still going has an empty log, and every production is followed along its
   report-free path only.  `QD pre m post`: started with an empty log in a state satisfying `pre`, the action `m` either ends
-  normally with the log still empty and `post`, or is left with a non-empty log, or is left through `fail` with NOFUEL or
-  CIF_INVALID_INDEX (73).  The other `fail` sites (CIF_INTERNAL_ERROR ×4, CIF_INVALID_ITEMNAME ×2, CIF_DUP_ITEMNAME) are
-  shown dead on that path.  Lemmas/ParserTop (`parse_spec`) transfers the result to every policy (Props/C03.lean).
+  normally with the log still empty and `post`, or is left with a non-empty log, or is left through `fail` with NOFUEL.
+  The other `fail` sites (CIF_INTERNAL_ERROR ×4, CIF_INVALID_ITEMNAME ×2, CIF_DUP_ITEMNAME) are shown dead on that path
+  (CIF_INVALID_INDEX is a reported code since 8375485).  Lemmas/ParserTop (`parse_spec`) transfers the result to every policy (Props/C03.lean).
 -/
 set_option linter.unusedSimpArgs false
 set_option linter.unusedVariables false
@@ -23,14 +23,14 @@ def QD {α} (pre : W → Prop) (m : P α) (post : α → W → Prop) : Prop :=
   ∀ w, pre w → w.log = [] →
     match m dieAll w with
     | .ok a w' => w'.log = [] ∧ post a w'
-    | .abort c w' => w'.log ≠ [] ∨ c = NOFUEL ∨ c = 73
+    | .abort c w' => w'.log ≠ [] ∨ c = NOFUEL
 
 theorem QD.pure {α} {pre : W → Prop} {post : α → W → Prop} (a : α) (h : ∀ w, pre w → post a w) : QD pre (P.pure a) post := by
   intro w hp hl
   simp only [P.pure]
   exact ⟨hl, h w hp⟩
 
-theorem QD.fail_ok {α} {pre : W → Prop} {post : α → W → Prop} (c : Int) (hc : c = NOFUEL ∨ c = 73) : QD pre (fail c : P α) post := by
+theorem QD.fail_ok {α} {pre : W → Prop} {post : α → W → Prop} (c : Int) (hc : c = NOFUEL) : QD pre (fail c : P α) post := by
   intro w hp hl
   simp only [Parser.fail]
   exact Or.inr hc
@@ -223,10 +223,10 @@ theorem values_qd (o : Opts) (Q : Cif → Prop) : ∀ fuel : Nat,
   induction fuel with
   | zero =>
     refine ⟨?_, ?_, ?_, ?_⟩ <;> intros
-    · rw [parseValue]; exact QD.fail_ok _ (Or.inl rfl)
-    · rw [listLoop]; exact QD.fail_ok _ (Or.inl rfl)
-    · rw [tableLoop]; exact QD.fail_ok _ (Or.inl rfl)
-    · rename_i key _; cases key <;> (rw [tableEntry]; exact QD.fail_ok _ (Or.inl rfl))
+    · rw [parseValue]; exact QD.fail_ok _ rfl
+    · rw [listLoop]; exact QD.fail_ok _ rfl
+    · rw [tableLoop]; exact QD.fail_ok _ rfl
+    · rename_i key _; cases key <;> (rw [tableEntry]; exact QD.fail_ok _ rfl)
   | succ fuel ih =>
     obtain ⟨hv, hl, ht, he⟩ := ih
     refine ⟨?_, ?_, ?_, ?_⟩
@@ -297,6 +297,8 @@ theorem values_qd (o : Opts) (Q : Cif → Prop) : ∀ fuel : Nat,
       | none =>
         rw [tableEntry]
         simp only [bind_eq, pure_eq]
+        apply QD.bind (mid := fun _ w => Q w.cif) (QD.pure _ (fun w h => h))
+        intro key
         apply QD.bind (nextTok_qd o s hs Q)
         rintro ⟨t, s1⟩
         apply QD.pull
@@ -314,8 +316,10 @@ theorem values_qd (o : Opts) (Q : Cif → Prop) : ∀ fuel : Nat,
         rw [tableEntry]
         simp only [bind_eq, pure_eq]
         split
-        · exact QD.bind (mid := fun _ _ => False) (QD.fail_ok _ (Or.inr rfl)) (fun _ => QD.dead _ (fun _ h => h))
-        · apply QD.bind (nextTok_qd o s hs Q)
+        · qd_report
+        · apply QD.bind (mid := fun _ w => Q w.cif) (QD.pure _ (fun w h => h))
+          intro key
+          apply QD.bind (nextTok_qd o s hs Q)
           rintro ⟨t, s1⟩
           apply QD.pull
           rintro ⟨h1, h2, h3⟩
@@ -417,7 +421,7 @@ theorem headerLoop_qd (o : Opts) (cont : Option Path) (c0 : Cif) : ∀ (fuel : N
     QD (fun w => w.cif = c0) (headerLoop o cont fuel s slots) (fun a w => w.cif = c0 ∧ SlotsOk o c0 cont a.1 ∧ PSok a.2) := by
   intro fuel
   induction fuel with
-  | zero => intro s slots _ _; rw [headerLoop]; exact QD.fail_ok _ (Or.inl rfl)
+  | zero => intro s slots _ _; rw [headerLoop]; exact QD.fail_ok _ rfl
   | succ fuel ih =>
     intro s slots hs hok
     rw [headerLoop]
@@ -469,7 +473,7 @@ theorem packetsLoop_qd (o : Opts) (loopAt : Option Path) (slots : List (Option S
     PSok s → QD (fun _ => True) (packetsLoop o loopAt slots fuel s k) (fun s' _ => PSok s') := by
   intro fuel
   induction fuel with
-  | zero => intro s k _; rw [packetsLoop]; exact QD.fail_ok _ (Or.inl rfl)
+  | zero => intro s k _; rw [packetsLoop]; exact QD.fail_ok _ rfl
   | succ fuel ih =>
     intro s k hs
     rw [packetsLoop]
@@ -588,8 +592,8 @@ theorem containers_qd (o : Opts) : ∀ fuel : Nat,
   induction fuel with
   | zero =>
     refine ⟨?_, ?_⟩ <;> intros
-    · rw [parseContainer]; exact QD.fail_ok _ (Or.inl rfl)
-    · rw [elemsLoop]; exact QD.fail_ok _ (Or.inl rfl)
+    · rw [parseContainer]; exact QD.fail_ok _ rfl
+    · rw [elemsLoop]; exact QD.fail_ok _ rfl
   | succ fuel ih =>
     obtain ⟨hc, he⟩ := ih
     refine ⟨?_, ?_⟩
@@ -677,7 +681,7 @@ theorem blocksLoop_qd (o : Opts) : ∀ (fuel : Nat) (s : PS), PSok s →
     QD (fun _ => True) (blocksLoop o fuel s) (fun _ _ => True) := by
   intro fuel
   induction fuel with
-  | zero => intro s _; rw [blocksLoop]; exact QD.fail_ok _ (Or.inl rfl)
+  | zero => intro s _; rw [blocksLoop]; exact QD.fail_ok _ rfl
   | succ fuel ih =>
     intro s hs
     rw [blocksLoop]
@@ -712,7 +716,7 @@ def FinD (m : P Unit) : Prop :=
   ∀ w, w.log = [] →
     match m dieAll w with
     | .ok _ _ => True
-    | .abort c w' => w'.log ≠ [] ∨ c = NOFUEL ∨ c = 73
+    | .abort c w' => w'.log ≠ [] ∨ c = NOFUEL
 
 theorem FinD.ofQD {α} {m : P α} {post : α → W → Prop} (h : QD (fun _ => True) m post) : FinD (P.bind m fun _ => P.pure ()) := by
   intro w hl
